@@ -195,6 +195,13 @@ def literal_vval(obj):
     return v
 
 
+# Tried and withdrawn: demanding that the backend rejects every pair the conversion matrix rejects fails on the
+# unchanged tree for 40 cases (out-of-range integers, equal-width Signed/Unsigned ...): the backend relies on the front
+# end for those.  The front end's guard for INITIALISATIONS was missing (fixed, see TypeQualifier._init_replacement in
+# contracts/c05_setters.py); with every entry point guarded, the backend's behaviour on rejected pairs is unspecified.
+STRICT_REJECT = False
+
+
 def cast_spec(root_kind, view_kind, ref):
     def spec(sx, scope, target, value, value_str):
         # what the front end does with this pair (C05 matrix); rejected pairs never reach the backend
@@ -203,6 +210,10 @@ def cast_spec(root_kind, view_kind, ref):
         try:
             expected = convert(sx, view_kind, tw, prim)
         except C.SpecRaise:
+            if STRICT_REJECT:
+                # declarations with an initial value reach the backend without passing a setter: for pairs the
+                # conversion matrix rejects the backend is the only guard and must reject as well
+                sx.reject(AssertionError)
             raise C.SpecUnspecified()
         operand = operand_vval(prim)
         want_kind = VKIND[root_kind]
